@@ -204,6 +204,9 @@ DrainWaitDone(t) ==                            \* every snapshotted request has 
 DrainDeadline(t) ==                            \* the drain timeout fires first; hook drain_deadline; cancel the rest
   /\ dr[t] = "waiting"
   /\ snap[t] \cap inflight[t] # {}
+  \* requests that finish within the drain timeout (kind "plain") do finish before the deadline:
+  \* the proviso of C02/C03, and what virtual time implements
+  /\ \A r \in snap[t] \cap inflight[t] : rq[r].kind # "plain"
   /\ LET cut == snap[t] \cap inflight[t]
      IN /\ inflight' = [inflight EXCEPT ![t] = @ \ cut]
         /\ rq' = [r \in Reqs |-> IF r \in cut THEN [rq[r] EXCEPT !.pc = "done", !.status = 504] ELSE rq[r]]
@@ -271,7 +274,10 @@ PcResume(k) ==
   /\ cm' = [k |-> k, pc |-> "ret", repl |-> 0, pend |-> {}]
   /\ res' = [res EXCEPT ![k] = "ok"]
   /\ next' = k + 1
-  /\ rq' = [r \in Reqs |-> IF rq[r].pc \notin {"new", "done"} THEN [rq[r] EXCEPT !.resumed = TRUE] ELSE rq[r]]
+  /\ rq' = [r \in Reqs |-> IF rq[r].pc \notin {"new", "done"}
+                           THEN [rq[r] EXCEPT !.resumed = TRUE,
+                                              !.allowed = IF rq[r].pc = "held" THEN {verLb[table]} ELSE @]
+                           ELSE rq[r]]
   /\ UNCHANGED <<table, verLb, ts, saved, rot, became, hcOn, hc, nprobe, inflight, dr, snap, pgen, okEver, retired>>
 
 CmdNotFound(k) ==                              \* pause/stop/resume of a service that does not exist
@@ -286,7 +292,9 @@ CmdNotFound(k) ==                              \* pause/stop/resume of a service
 (***************************************************************************)
 CliSend(r, kind) ==
   /\ rq[r].pc = "new" /\ kind \in Kinds
-  /\ rq' = [rq EXCEPT ![r] = [@ EXCEPT !.pc = "sent", !.kind = kind, !.dep = table # 0,
+  /\ rq' = [rq EXCEPT ![r] = [@ EXCEPT !.pc = "sent", !.kind = kind,
+              \* "deployed" in the operator's sense: some deploy of the service has returned ok
+              !.dep = table # 0 /\ (\E k \in CmdIds : Cmds[k] = "deploy" /\ res[k] = "ok" /\ ~(cm.pc # "idle" /\ cm.k = k)),
               !.allowed = (IF table # 0 THEN {verLb[table]} ELSE {}) \cup (IF cm.pc # "idle" /\ Cmds[cm.k] = "deploy" THEN {cm.k} ELSE {}),
               !.pAtSend = IF cm.pc # "idle" /\ Cmds[cm.k] \in {"pause", "stop", "resume"} THEN "busy" ELSE pstate,
               !.disturbed = cm.pc # "idle" /\ Cmds[cm.k] \in {"pause", "stop"}]]
@@ -414,6 +422,9 @@ D_C03_p == Quiesced => \A t \in Targets : \A r \in inflight[t] : KF(r)
 
 \* C07_a / C08: a request sent in a definite paused (stopped) interval is not forwarded before resume
 D_C07_a == \A r \in Reqs : (rq[r].pAtSend \in {"paused", "stopped"} /\ ~rq[r].resumed /\ ~KF(r)) => rq[r].tgt = NoTarget
+\* C07_b: a held request released by resume is served by the group the service has at that moment (or a later one)
+D_C07_b == \A r \in Reqs : (rq[r].pc = "done" /\ rq[r].heldIn # 0 /\ rq[r].status = 200 /\ ~KF(r))
+                            => GroupOf(rq[r].tgt) \in rq[r].allowed
 \* C07_f: a request whose life never overlapped a stop is never answered 503 (targets never fail here)
 D_C07_f == \A r \in Reqs :
              (rq[r].pc = "done" /\ rq[r].status = 503 /\ ~AllowBad /\ ~KF(r))
